@@ -6220,6 +6220,10 @@ class CodegenCtx:
         if state in self.dfa.accepting_states:
             result.add(f"return {self.program_name.upper()}_DONE;")
         else:
+            # the input ended before the program did: like a FAIL from feed, this one is final
+            # (without a fail state in the table, the index past the last state is answered by the default: case)
+            final_state = self.dfa.states.index(self.generic_fail_state) if self.generic_fail_state in self.dfa.states else len(self.dfa.states)
+            result.add(f"state->state = {final_state};")
             result.add(f"return {self.program_name.upper()}_FAIL;")
         return result.value()
     
